@@ -59,5 +59,9 @@ MUTANTS = [
         for sid in sids:
             sbmap.setdefault(sid, []).append((sb_id, frame))
 """)]},
+    {'name': 'lexfile-only-for-nouns-and-verbs', 'expect': 'C03-R8',
+     'edits': [E(X, "get_lexfile(rowid) or ''", "(get_lexfile(rowid) or '') if pos in ('n', 'v') else ''")]},
+    {'name': 'counts-only-for-non-adjectives', 'expect': 'C03-R8',
+     'edits': [E(X, "            'counts': _export_counts(rowid, lexids),", "            'counts': _export_counts(rowid, lexids) if not id.endswith('-s') else [],")]},
 ]
 MUTANTS = [m for m in MUTANTS if 'xfail' not in m]
